@@ -337,10 +337,17 @@ class HamiltonianDisplacementMove(
         old_positions = atoms.get_positions()
         old_momenta = atoms.get_momenta()
 
+        # between trials `last_kinetic_energy` is the kinetic energy of the current
+        # momenta; inside a composite it carries what earlier members did, so a fresh
+        # draw replaces only this move's own share (0.0 for a move on its own)
+        reference = context.last_kinetic_energy
+        start = atoms.get_kinetic_energy()
+
         for _ in range(self.max_attempts):
             if sample_momenta:
                 self.distribution(context)
-                context.last_kinetic_energy = atoms.get_kinetic_energy()  # type: ignore
+                drawn = atoms.get_kinetic_energy()
+                context.last_kinetic_energy = (reference - start) + drawn  # type: ignore
 
             self.operation.integrate(context)
 
@@ -349,6 +356,7 @@ class HamiltonianDisplacementMove(
 
             atoms.positions = old_positions
             atoms.set_array("momenta", old_momenta, float, (3,))
+            context.last_kinetic_energy = reference
             Context.revert_state(context)
 
         return False
